@@ -697,12 +697,14 @@ func (r *histRun) handshakeWith(n *hNode, l *hLoc, class string, k int, cdpKind 
 				}
 			}
 		} else {
-			if hs.Err != nil && !isRevokedErr(hs.Err) && !r.cfg.faulty {
+			// (origin misbehaviour is no excuse either: it is exactly "the inability to obtain or use a CRL"; only the
+			// OCSP side, where a history has one, can deny for reasons of its own)
+			if hs.Err != nil && !isRevokedErr(hs.Err) && (!r.cfg.faulty || !r.cfg.withOCSP) {
 				r.viol("C10.lenient-deny", "lenient-deny:"+cdpKind, "lenient: node %s denied a certificate for a reason other than revocation: %v", n.Name, hs.Err)
 			}
 		}
 	}
-	if crlOn && len(cdp) == 0 && hs.Err != nil && !isRevokedErr(hs.Err) && !r.cfg.faulty {
+	if crlOn && len(cdp) == 0 && hs.Err != nil && !isRevokedErr(hs.Err) && (!r.cfg.faulty || !r.cfg.withOCSP) {
 		r.viol("C10.lenient-deny", "deny-without-cdp", "node %s denied a certificate without distribution points for a reason other than revocation: %v", n.Name, hs.Err)
 	}
 	if hs.Err != nil || lb || la {
